@@ -320,4 +320,29 @@ def run(ctx):
     _n5 = _sh4.import_obligations(ctx, 'C05', lambda o: '|listener-order|' in o['key'] or o['key'].startswith('listener-order|'), 'R-C12-1', 'attempt / outcome / disconnection / stopped events reach a listener in the order they were emitted')
     if ctx.config == 'all':
         ctx.floor(_n5, 4, 'listener hand-off obligations shared with C05')
+    # ---- added after the second mutation sweep: the control requests themselves (start / stop / close on the client handles)
+    ncr = 0
+    for v in F.all_fns():
+        m_ = re.match(r'^<client::(synchronous::threaded::ThreadedClient|asynchronous::tokio::TokioClient) as client::(synchronous::SyncClient|asynchronous::AsyncClient)>::(start|stop|close)$', norm(v.path))
+        if not m_:
+            continue
+        ncr += 1
+        drv, req = m_.group(1).split('::')[1], m_.group(3)
+        VAR = {'start': 'Start', 'stop': 'Stop', 'close': 'Shutdown'}[req]
+        SEND_ERR = r'^(Unbounded)?Sender::send\(self\.operation_sender, OperationOptions::%s\{.*\) is Err$' % VAR
+        SEND_OK = r'^(Unbounded)?Sender::send\(self\.operation_sender, OperationOptions::%s\{.*\) is Ok$' % VAR
+        ra_ = prims.rets_after(v, [SEND_ERR])
+        ro_ = prims.rets_after(v, [SEND_OK])
+        ctx.ob(ra_ == {'Err'} and ro_ == {'Ok'}, '%s %s(): the request is the %s message; a closed client (channel send fails) is reported as an error, a delivered request as Ok (%s / %s)' % (drv, req, VAR, sorted(ra_ or ['send not found']), sorted(ro_ or [])),
+               'request|%s|%s|send' % (drv, req), loc=v.loc(), rule='R-C12-5')
+        if req == 'stop':
+            ws_ = [(i, show(v.rvalue_expr(s_['rv'], i))) for (i, j, s_) in v.stmts() if s_['k'] == 'assign' and s_['lhs']['p'] and show(v.place_expr(s_['lhs'])) == 'stop_options.disconnect']
+            somes_ = prims.edge_nodes_matching(v, [r'^\(Option::unwrap_or_default\(options\)\)\.disconnect is Some$'])
+            sends_ = [c for c in v.calls() if re.search(r'Sender::send$', c.nfn.split('<')[0])]
+            fw_ = [w for w in ws_ if w[1].startswith('Option::Some{0: Box::new(MqttPacket::Disconnect{0: ')]
+            ok_ = len(fw_) == 1 and guarded_any(v, fw_[0][0], [r'^\(Option::unwrap_or_default\(options\)\)\.disconnect is Some$']) and len(sends_) == 1 and bool(somes_) and \
+                any(sends_[0].bb in v.reach([e_]) and sends_[0].bb not in v.reach([e_], avoid=[fw_[0][0]]) for e_ in somes_)
+            ctx.ob(ok_, '%s stop(): a DISCONNECT the application supplied is forwarded with the stop request (and only then)' % drv, 'request|%s|stop|disconnect' % drv, loc=v.loc(), rule='R-C12-5')
+    if ctx.config == 'all':
+        ctx.floor(ncr, 6, 'control request functions (start/stop/close, both clients)')
 
